@@ -96,8 +96,10 @@ CHECKS = {
              "invariant under row permutations that keep the reference row first and under column order/case/spelling; the real static-file "
              "reader keeps volume, moduli and lattice parameters of a row together for every listed row order (tokens, ordered volumes); the "
              "real Calculator._load hands the same volume-block sequence to the QHA layer whatever order the phonon file lists them in (or, "
-             "if the order gets through, qha's grid refinement is compared as exact linear maps of symbolic free energies).",
-        note="Outside: permutations moving static row 0 (needs the affine-invariance argument for the Eulerian strain), rounding; the "
+             "if the order gets through, qha's grid refinement is compared as exact linear maps of symbolic free energies and interpolate_modes "
+             "as uninterpreted interpolants of its node sets); re-orderings of static rows that move the strain reference row are decided to "
+             "1e-6 by LRA on concrete volume grids.",
+        note="Outside: the affine invariance of the static fit for symbolic volumes (decided on concrete grids only), rounding; the "
              "phonon volume-order obligation is decided at the hand-over (identical data downstream), not by executing qha and scipy on "
              "permuted data.",
         design="3/C13"),
@@ -149,7 +151,8 @@ CHECKS = {
         text="Partial (wiring): for every keyword and alias of the registry loaded from the working tree's YAML and both bases, the table "
              "handed to the qha writer is, for all values of the symbolic results, the in-memory quantity (adiabatic vs isothermal tensor, "
              "averages, velocities, V, P) times the documented unit factor, under the documented file name, with T / P(GPa) / V(A^3) axes; "
-             "aliases identical; fname/unit overrides honoured; write_output dispatches per base.",
+             "aliases identical; fname/unit overrides honoured, also when the same rule is listed several times for one base; write_output "
+             "dispatches per base.",
         note="The textual table (labels as printed, the four dropped guard temperatures, precision) is produced by qha/pandas and is "
              "outside the solver claim; the concrete replay re-reads real files only to confirm a counterexample.",
         design="3/C15"),
@@ -196,10 +199,11 @@ CHECKS = {
                   "execution of evec_sort over a symbolic perturbation box where z3 decides every abs/argmax comparison",
         text="Small bounds: disp2eig (M<=2, N<=2) returns unit-norm rows parallel to M^(1/2) d for all displacement rows and positive "
              "masses on every path of its data-dependent guards, restores an orthonormal pair (nlsat under orthonormality constraints), uses the Hermitian norm, rejects shape "
-             "mismatches; evec_sort (n=2,3; rational orthonormal bases; signed permutations; perturbation box [-0.05,0.05]^(n x n)) returns "
-             "the expected order on every feasible path of the greedy argmax.",
-        note="Outside: dimensions 4-60, arbitrary irrational/complex unitary bases and complex phases for the sort, evec_load (file "
-             "parsing, same reason as C17).",
+             "mismatches; evec_sort (n=2,3; rational orthonormal real bases with signed permutations and rational complex unitary bases with phases "
+             "1, i, -1, -i; perturbation box of radius 0.05) returns the expected order on every feasible path of the greedy argmax; "
+             "evec_load returns every complex component at its (q, mode, atom, axis) place for files in matdyn layout (token files).",
+        note="Outside: dimensions 4-60, unitary bases with irrational entries and general phases for the sort; for evec_load the float() "
+             "parsing itself and the digit regexes on symbolic text (q coordinates and frequencies are concrete, pairwise distinct).",
         design="3/C20"),
     "C18": dict(
         engine="symnum+z3",
@@ -222,10 +226,25 @@ CHECKS = {
         text="Partial: extract - for every requested value in and beyond the tabulated range, every feasible outcome returns a nearest grid "
              "line, the same line for every variable, labelled by the other coordinate (rows for -T, columns for -P); extract-geotherm - each "
              "value is the spline of the table with temperatures along rows and pressures along columns evaluated at the geotherm row's "
-             "(T_i, P_i), for default and custom column names, geotherm columns passed through.",
+             "(T_i, P_i) for every geotherm point inside the tabulated range (all paths of any data-dependent guard), for default and custom "
+             "column names, geotherm columns passed through.",
         note="Outside: file discovery (glob), table parsing and printing, and everything about the FITPACK spline itself (that it "
              "reproduces grid nodes, convergence under refinement: library numerics / asymptotic statement).",
         design="3/C19 (as built: A.4)"),
+    "C14": dict(
+        engine="symnum+z3",
+        technique="bounded call / access histories executed symbolically on the real classes (results read repeatedly and in several orders, "
+                  "write_output repeated and re-ordered, two calculators interleaved, fill applied twice); z3 equality of everything observed",
+        text="Partial: the clauses of the statement that are about values the code computes. For all symbolic inputs and the listed "
+             "histories (2-3 reads per quantity, 3 access orders, 3 write_output calls, 2 calculators in one process, fill applied twice) "
+             "every array observed later equals the one observed first: phonon contribution objects, task-list results, all volume- and "
+             "pressure-base quantities, the tables handed to the table writer, the first calculator's results after a second one was built, "
+             "and a symmetry-filled table filled again.",
+        note="NOT covered and not coverable by this technique: the interpreter's hash seed, unrelated entries in the working directory and "
+             "byte-identical output files are properties of the process environment, not values the code computes with; only re-running the "
+             "program varies them (differential re-execution). Histories longer than the listed ones are outside. Related history obligations "
+             "live in C05 (configuration leak), C08/C09 (fill call order, relations file rewritten, directory named like the system), C16, C17.",
+        design="3/C14 (as built: A.4)"),
     "C17": dict(
         engine="symnum+z3",
         technique="symbolic execution of the real readers / writer on files whose numeric fields are opaque tokens (module-global `float` "
@@ -241,9 +260,6 @@ CHECKS = {
 }
 
 NOT_APPLICABLE = {
-    "C14": "Quantifies over interpreter hash seeds, unrelated directory entries, process history and byte-identical files: "
-           "environment, not values the code computes with; only differential re-execution can vary them and no faithful "
-           "symbolic model of CPython hashing / the filesystem is within reach (DESIGN.md 3/C14).",
 }
 
 IN_PROGRESS = "check not built yet in this round (planned in DESIGN.md section 3; will be claimed when its harness lands)"
